@@ -326,6 +326,10 @@ def boot(w, cmd, d, a):
         w.pinbuf = {}
         w.log.append(("unlock_attempt", pin))
         _hook(w, "unlock")
+        if cmd == 0xA3 and w.unlocked:
+            # the enclave answers "unlocked" to anyone once it is (do_unlock in
+            # firmware/src/sgx/src/trusted/system.c): the password is not looked at
+            return bytes([0x80, cmd, 1])
         ok = pin == w.pin and w.unlock_ok and bool(w.onboarded is True)
         if ok:
             w.unlocked = True
